@@ -23,6 +23,10 @@ enum Pol {
     Exponential,
     Jittered,
     Custom,
+    /// 900 us: less than a millisecond
+    SubMs,
+    /// 2.75 ms: a fractional number of milliseconds
+    Fractional,
 }
 
 impl Pol {
@@ -34,6 +38,8 @@ impl Pol {
             Pol::Exponential => ReconnectPolicy::exponential(Duration::from_millis(10), Duration::from_millis(35)),
             Pol::Jittered => ReconnectPolicy::exponential_random(Duration::from_millis(10), Duration::from_millis(35), 0.5),
             Pol::Custom => ReconnectPolicy::Custom(Arc::new(ExponentialBackoff::new(Duration::from_millis(7)).multiplier(3.0))),
+            Pol::SubMs => ReconnectPolicy::fixed(Duration::from_micros(900)),
+            Pol::Fractional => ReconnectPolicy::fixed(Duration::from_micros(2750)),
         }
     }
     /// lower bound (ms, rounded down) of the configured delay for attempt index a
@@ -45,6 +51,8 @@ impl Pol {
             Pol::Exponential => exp(10.0, 2.0, 35.0),
             Pol::Jittered => exp(10.0, 2.0, 35.0) * 0.5,
             Pol::Custom => exp(7.0, 3.0, f64::MAX),
+            Pol::SubMs => 0.9,
+            Pol::Fractional => 2.75,
         }
     }
 }
@@ -214,7 +222,8 @@ fn run_one(cfg: &Cfg, prelude: &[u8], script: &[u8], trace: bool) -> (Vec<(Strin
         }
         let gap = (calls[k].start_ms - prev.end_ms.unwrap_or(prev.start_ms)) as f64;
         // the layer may number its attempts from 0 or from 1: accept the smaller delay
-        let need = cfg.pol.delay_lo(k - 1).min(cfg.pol.delay_lo(k)).floor();
+        // virtual instants are whole milliseconds: a gap of g ms satisfies a delay d iff g >= ceil(d)
+        let need = (cfg.pol.delay_lo(k - 1).min(cfg.pol.delay_lo(k)) - 1e-9).ceil();
         if gap < need {
             viols.push(("retry_too_early".into(), format!("attempt {} started {gap}ms after attempt {k} failed; the policy's delay is at least {need}ms", k + 1)));
         }
@@ -261,7 +270,7 @@ fn run_one(cfg: &Cfg, prelude: &[u8], script: &[u8], trace: bool) -> (Vec<(Strin
 fn grid(tier: Tier) -> Vec<Cfg> {
     let mut v = vec![];
     for max in [Some(0u32), Some(1), Some(2), Some(3), None] {
-        for pol in [Pol::None, Pol::Zero, Pol::Fixed, Pol::Exponential, Pol::Jittered, Pol::Custom] {
+        for pol in [Pol::None, Pol::Zero, Pol::Fixed, Pol::Exponential, Pol::Jittered, Pol::Custom, Pol::SubMs, Pol::Fractional] {
             for retry_on_reconnect in [true, false] {
                 for predicate in [false, true] {
                     if tier == Tier::Quick && max == Some(3) && pol == Pol::Jittered {
@@ -333,7 +342,7 @@ fn main() {
     }
     let tier = cli.tier;
     let mut rep = Report::new("C16", tier, "exploration");
-    rep.rule = "full grid: every inner-outcome script over {ok, connection error, other error} of length max_attempts+2 (4 + final ok when unlimited) x max_attempts {0,1,2,3,unlimited} x policy {none, fixed, exponential, jittered, custom} x retry_on_reconnect x predicate x an earlier request through the same service {none, succeeds at once, succeeds after one reconnect, fails with a non-connection error, meets connection errors only}, each run stepped event by event under virtual time with the published connection state sampled during every sleep and at every inner call start; distinct = distinct (configuration, attempts made, result) triples".into();
+    rep.rule = "full grid: every inner-outcome script over {ok, connection error, other error} of length max_attempts+2 (4 + final ok when unlimited) x max_attempts {0,1,2,3,unlimited} x policy {none, zero, fixed 10 ms, exponential, jittered, custom, fixed 0.9 ms, fixed 2.75 ms} x retry_on_reconnect x predicate x an earlier request through the same service {none, succeeds at once, succeeds after one reconnect, fails with a non-connection error, meets connection errors only}, each run stepped event by event under virtual time with the published connection state sampled during every sleep and at every inner call start; distinct = distinct (configuration, attempts made, result) triples".into();
     rep.assumptions = vec![
         "the delay before retry k is compared with the smaller of the policy's values for attempt indices k-1 and k (the documentation does not fix the numbering)".into(),
         "jittered delays: lower bound (1 - randomization factor) x base checked on every draw".into(),
